@@ -263,10 +263,12 @@ impl JitWorld {
     }
     if io {
       self.core.memory.io = IO::new();
+      // power-on value of the DMA register, through the bus (the page latch is subject state)
+      crate::mem::memory_write_byte(&mut self.core.memory as *mut MemoryAreas, 0xFF46, 0xFF);
       self.core.memory.oam_dma = None;
       (self.base_io)(&mut self.core);
     }
-    self.core.memory.io.interrupt_mask = 0;
+    crate::mem::memory_write_byte(&mut self.core.memory as *mut MemoryAreas, 0xFFFF, 0);
     for i in 0..self.desired.len() {
       let (a, v) = self.desired[i];
       if a >= 0x8000 {
